@@ -91,6 +91,7 @@ Variable c : cfg.
 Hypothesis Hsc : c_scope c = PerExecution.
 Hypothesis Hru : c_replay_uncond c = true.
 Hypothesis Hgp : c_gen_private c = true.
+Hypothesis Hxp : c_exec_private c = true.
 
 Inductive gen_spec (W : world) (xw : nat) : opk -> nat -> list (skey * value) -> nat -> value -> Prop :=
 | GS_rnd : forall g, gen_spec W xw Rnd g (store W) (clock W) (VRand (seed_wf c xw) g)
@@ -172,7 +173,7 @@ Proof.
   - destruct (nlookup e (exes W)) as [ex|] eqn:He; [|apply SS_skip].
     unfold put_x, get_x. rewrite Hsc. destruct o as [k|call].
     + unfold draw. rewrite Hgp. apply SS_det; [exact He|apply det_op_spec].
-    + apply SS_exec; [exact He|apply exec_op_spec].
+    + rewrite Hxp. apply SS_exec; [exact He|apply exec_op_spec].
   - destruct (slookup (w, task_key c call) (store W)) as [[]|]; try apply SS_skip. apply SS_aux.
   - rewrite Hgp. apply SS_skip.
 Qed.
@@ -717,11 +718,11 @@ End Effects.
 (* ================================================================ the statement, per scope *)
 Theorem per_execution_satisfies : forall c,
   c_scope c = PerExecution -> c_seed_wf c = true -> c_task_key_call c = true ->
-  c_replay_uncond c = true -> c_gen_private c = true -> C18_statement c.
+  c_replay_uncond c = true -> c_gen_private c = true -> c_exec_private c = true -> C18_statement c.
 Proof.
-  intros c H1 H2 H3 H4 H5. split; [|split].
+  intros c H1 H2 H3 H4 H5 H6. split; [|split].
   - intros evs e1 e2 w k n v1 v2 A B C D.
-    exact (nth_value_stable_lemma c H1 H4 H5 evs e1 e2 w k n v1 v2 A B C D).
+    exact (nth_value_stable_lemma c H1 H4 H5 H6 evs e1 e2 w k n v1 v2 A B C D).
   - apply sub_task_once_lemma; assumption.
   - apply no_mix_lemma; assumption.
 Qed.
@@ -731,10 +732,11 @@ Proof. intros []; reflexivity. Qed.
 
 (* the facts generated from the current source, apart from the scope of the executor: seeds contain the
    workflow id, the sub-task record key contains the call identity, the replay branch of execute_task is
-   unconditional, the value generators keep no state outside their call *)
+   unconditional, the value generators keep no state outside their call, execute_task keeps no state
+   outside the workflow data *)
 Lemma gen_facts_good :
   c_seed_wf gen_cfg = true /\ c_task_key_call gen_cfg = true /\
-  c_replay_uncond gen_cfg = true /\ c_gen_private gen_cfg = true.
+  c_replay_uncond gen_cfg = true /\ c_gen_private gen_cfg = true /\ c_exec_private gen_cfg = true.
 Proof. repeat split; reflexivity. Qed.
 
 Definition fixed_cfg : cfg := with_scope gen_cfg PerExecution.
@@ -742,8 +744,8 @@ Definition cached_cfg : cfg := with_scope gen_cfg PerTaskObject.
 
 Theorem fixed_cfg_satisfies : C18_statement fixed_cfg.
 Proof.
-  destruct gen_facts_good as [H1 [H2 [H3 H4]]].
-  apply per_execution_satisfies; [reflexivity|exact H1|exact H2|exact H3|exact H4].
+  destruct gen_facts_good as [H1 [H2 [H3 [H4 H5]]]].
+  apply per_execution_satisfies; [reflexivity|exact H1|exact H2|exact H3|exact H4|exact H5].
 Qed.
 
 (* ---- witnesses against the executor cached per Task object (computed) *)
@@ -867,11 +869,50 @@ Lemma shared_generator_stale_draw :
   = [VRand (seed_wf gen_cfg 2) (1 + c_seq_offset gen_cfg); VStale (seed_wf gen_cfg 2) (1 + c_seq_offset gen_cfg)].
 Proof. vm_compute. reflexivity. Qed.
 
+(* ---- the executor kept in a container of the process keyed by the invocation (its id, or the object, which
+   compares by id): a re-execution of the invocation in the same process image finds the executor of the
+   previous attempt with its advanced counters (computed witness: the same as for the Task-object cache) *)
+Definition keyed_cfg : cfg := with_scope gen_cfg PerInvocationKey.
+
+Theorem keyed_executor_refuted : ~ nth_value_stable_stmt keyed_cfg.
+Proof.
+  intro H.
+  assert (E : VRand (seed_wf gen_cfg 1) (1 + c_seq_offset gen_cfg) = VRand (seed_wf gen_cfg 1) (2 + c_seq_offset gen_cfg)).
+  { apply (H wit_reexec 0 1 1 Rnd 0); vm_compute; reflexivity. }
+  vm_compute in E. discriminate E.
+Qed.
+
+(* ... while executions of the invocation in DIFFERENT process images, and different invocations, do not
+   share it: the witness needs the same image *)
+Lemma keyed_executor_other_image_replays :
+  map (fun x => snd x) (outs (run keyed_cfg [EBegin 0 0 0 1; EOp 0 (ODet Rnd); EBegin 1 1 0 1; EOp 1 (ODet Rnd);
+                                             EBegin 2 0 0 2; EOp 2 (ODet Rnd)]))
+  = [VRand (seed_wf gen_cfg 1) (1 + c_seq_offset gen_cfg); VRand (seed_wf gen_cfg 1) (1 + c_seq_offset gen_cfg);
+     VRand (seed_wf gen_cfg 2) (1 + c_seq_offset gen_cfg)].
+Proof. vm_compute. reflexivity. Qed.
+
+(* ---- execute_task behind a process-wide cache of resolved invocations keyed by the call only (computed
+   witness): a second workflow making the identical call in the same process image is handed the first
+   workflow's invocation; nothing is launched for it *)
+Definition subtask_cache_cfg : cfg := with_shared_subtask_cache fixed_cfg.
+
+Theorem shared_subtask_cache_refuted : ~ sub_task_once_stmt subtask_cache_cfg /\ ~ no_mix_stmt subtask_cache_cfg.
+Proof.
+  split.
+  - intro H. destruct (H wit_mix) as [_ [G _]].
+    destruct (G 1 2 1 (VInv 0)) as [i [_ Hin]]; [vm_compute; reflexivity|vm_compute; auto|].
+    vm_compute in Hin. destruct Hin as [Hin|[]]. discriminate Hin.
+  - intro H. destruct (H wit_mix) as [G _].
+    apply (G 0 1 1 2 (OExec 1) (OExec 1) (VInv 0) (VInv 0)); vm_compute; auto; discriminate.
+Qed.
+
 Theorem statement_iff_per_execution : forall s,
   C18_statement (with_scope gen_cfg s) <-> s = PerExecution.
 Proof.
   intros s; split.
-  - destruct s; [|reflexivity]. intros [H _]. exfalso. exact (proj1 cached_cfg_refuted H).
+  - destruct s; [|reflexivity|]; intros [H _]; exfalso.
+    + exact (proj1 cached_cfg_refuted H).
+    + exact (keyed_executor_refuted H).
   - intros ->. exact fixed_cfg_satisfies.
 Qed.
 
